@@ -1190,6 +1190,10 @@ class Executor:
                 return x is None and y is None
             if x.tid != y.tid:
                 return False
+            if x.tid not in self.prog.types:      # model objects (curve singletons, stream hashes): identity
+                if isinstance(x.val, Ptr) and isinstance(y.val, Ptr):
+                    return self.ptr_eq(x.val, y.val)
+                return x.val is y.val
             return self.equal(x.val, y.val, x.tid)
         if k == 'slice':
             # only comparison with nil is legal
